@@ -8,6 +8,7 @@ mod s_cnt;
 mod s_rice;
 mod s_src;
 mod s_cfg;
+mod s_parse;
 
 use std::io::{BufRead, Write};
 
@@ -26,6 +27,7 @@ fn run_line(line: &str) -> String {
         "RICE" => s_rice::run(&idc, &restc),
         "SRC" => s_src::run(&idc, &restc),
         "CFG" => s_cfg::run(&idc, &restc),
+        "PARSE" => s_parse::run(&idc, &restc),
         _ => format!("{} unknown-stream", idc),
     });
     match r { Ok(s) => s, Err(_) => format!("{} panic", id) }
@@ -48,6 +50,7 @@ fn main() {
                 "RICE" => s_rice::gen(seed, n, &mut out),
                 "SRC" => s_src::gen(seed, n, &mut out),
                 "CFG" => s_cfg::gen(seed, n, &mut out),
+                "PARSE" => s_parse::gen(seed, n, &mut out),
                 _ => panic!("unknown stream"),
             }
             print!("{}", out);
